@@ -447,19 +447,31 @@ def run(ctx):
 
 
 def replay(ctx, path):
+    """container lines (`<id> vec|list|map|arena|rarena|rarenad <fuse|-> ...`) go to harness/mem.cpp and through the
+    container oracle; `sweep <scenario> <xsl> <xml> <mode> <k>` lines go to harness/mem_sweep.cpp.  Exit status 1
+    when a line fails (known finding or not)."""
     core.build_lib("plain")
     impl, ok_h, hlog = core.build_harness("mem", "plain", extra_flags=["-DNDEBUG"])
     cont, sweep = [], []
     for l in open(path):
-        if not l.strip() or l.startswith("#"):
+        if not l.strip() or l.startswith("#") or l.startswith("(process)"):
             continue
         (sweep if l.startswith("sweep ") else cont).append(l)
     rc = 0
     if cont:
         r, out = core.sh([impl], input="".join(cont))
-        print(out)
+        res = {}
         for l in out.split("\n"):
-            if " bad=1" in l or re.search(r"\| T .*", l) and " - " in l:
+            if l.strip():
+                res[l.split(" ", 1)[0]] = l
+        for l in cont:
+            t = l.split()
+            c = (t[0], t[1], None if t[2] == "-" else int(t[2]), t[3:])
+            line = res.get(t[0])
+            print(line)
+            fails = oracle_container(c, line) if line else [(None, "no result (crash?)")]
+            for known, text in fails:
+                print("#   FAILS%s: %s" % (" (known finding %s)" % known if known else "", text))
                 rc = 1
     if sweep:
         from vlib import mem_sweep
